@@ -912,10 +912,14 @@ class MatrixProduct:
 
     def canonicalise(self, stop_idx: int=None):
         # stop_idx: mix canonical site at `stop_idx`
+        # the sweep starts at the end given by `to_right`: the quantum number centre has to sit there
+        # (moving it only relabels the bonds, the tensors are untouched)
         if self.to_right:
-            assert self.qnidx == 0
+            if self.qnidx != 0:
+                self.move_qnidx(0)
         else:
-            assert self.qnidx == self.site_num-1
+            if self.qnidx != self.site_num-1:
+                self.move_qnidx(self.site_num-1)
 
         idx = None
         for idx in self.iter_idx_list(full=False, stop_idx=stop_idx):
